@@ -57,7 +57,15 @@ func validatorInfos(c *engine.Context) map[*types.Named]*validatorInfo {
 		p := c.P
 		out := map[*types.Named]*validatorInfo{}
 		markerT := p.Roles.MarkerType()
-		for _, T := range p.Roles.ValidatorTypes {
+		var vts []*types.Named
+		vts = append(vts, p.Roles.ValidatorTypes...)
+		// comparators that implement the validation method themselves (shadowing the embedded validator)
+		for _, C := range p.Roles.ComparatorTypes {
+			if ownValidate(p, C) != nil {
+				vts = append(vts, C)
+			}
+		}
+		for _, T := range vts {
 			vi := &validatorInfo{T: T}
 			out[T] = vi
 			fn := methodOf(p, T, p.Roles.ValidateMethod)
@@ -466,6 +474,14 @@ func ruleVValidated(c *engine.Context) *report.Rule {
 		var details []string
 		details = append(details, ci.detail...)
 		V, isIface := embeddedValidator(p, C)
+		if ownValidate(p, C) != nil {
+			// the comparator's own validation method is what runs, not the embedded validator's
+			V, isIface = C, false
+			if vi := vinfos[C]; vi != nil && !vi.ok {
+				ok = false
+				details = append(details, "its own validation method (shadowing the embedded validator): "+strings.Join(uniqSorted(vi.detail), "; "))
+			}
+		}
 		switch {
 		case isIface:
 			if ci.kind != "raweq" {
@@ -1057,4 +1073,17 @@ func instrBefore(a, b ssa.Instruction) bool {
 		return false
 	}
 	return a.Block().Dominates(b.Block())
+}
+
+// ownValidate: the validation method declared on comparator type C itself (not promoted from an embedded validator), or nil.
+func ownValidate(p *load.Program, C *types.Named) *ssa.Function {
+	fn := methodOf(p, C, p.Roles.ValidateMethod)
+	if fn == nil || fn.Blocks == nil || fn.Synthetic != "" {
+		return nil
+	}
+	pt, ok := fn.Signature.Recv().Type().(*types.Pointer)
+	if !ok || !types.Identical(pt.Elem(), C) {
+		return nil
+	}
+	return fn
 }
